@@ -27,6 +27,9 @@ type c07Params struct {
 func c07Check(w *World, p c07Params, op string) *core.Violation {
 	td := w.model.Tables["t"].Def
 	keys := []any{int32(1), int32(2), int32(3), int32(10), int32(11), int32(30)}
+	if p.Seed == "colliding" {
+		keys = append(append([]any{}, c17HashBoundaryKeys()...), int32(7))
+	}
 	heap := func(pred Pred) (Rows, *core.Violation) {
 		return w.Query((&Stmt{Kind: "select", Table: "t", Cols: []string{"*"}, Where: ForceScan(pred)}).SQL())
 	}
@@ -104,8 +107,26 @@ func c07Check(w *World, p c07Params, op string) *core.Violation {
 
 func c07Cfg(p c07Params) *WorldCfg {
 	p3 := c03Params{Idx: p.Idx, Seed: p.Seed, MemKB: p.MemKB, Depth: 2}
+	if p.Seed == "colliding" {
+		p3.Seed = "small"
+	}
 	cfg := c03Cfg(p3)
 	cfg.Prop, cfg.Driver = "C07", "c07"
+	if p.Seed == "colliding" {
+		// hash kind: keys whose home is the same (last) slot of a block page of the linear-probe table - a
+		// removed entry leaves a tombstone on the probe path of the surviving one
+		bk := c17HashBoundaryKeys()
+		kv := []string{"k", "v"}
+		cfg.SeedStmts = []*Stmt{{Kind: "insert", Table: "t", Cols: kv, Rows: [][]any{{bk[0], "x"}, {bk[1], "y"}, {int32(7), "z"}}}}
+		cfg.Stmts = []*Stmt{
+			{Kind: "delete", Table: "t", Where: ForceScan(Leaf{"k", "=", bk[0]})},
+			{Kind: "delete", Table: "t", Where: ForceScan(Leaf{"k", "=", bk[1]})},
+			{Kind: "insert", Table: "t", Cols: kv, Rows: [][]any{{bk[2], "w"}}},
+			{Kind: "insert", Table: "t", Cols: kv, Rows: [][]any{{bk[0], "again"}}},
+			{Kind: "insert", Table: "t", Cols: kv, Rows: [][]any{{int32(7), "dup"}}},
+			{Kind: "delete", Table: "t", Where: ForceScan(And{Leaf{"k", "=", int32(7)}, Leaf{"v", "=", "z"}})},
+		}
+	}
 	cfg.Before, cfg.After, cfg.Filter, cfg.KeyExtra = nil, nil, nil, nil
 	nIn := func(w *World) int {
 		n := 0
@@ -171,7 +192,7 @@ func init() {
 			if tier == "thorough" {
 				return 25 * time.Minute
 			}
-			return 300 * time.Second
+			return 420 * time.Second
 		},
 		Assume: []string{
 			"index side is read with plan-level index scans (RangeScanWithIndex / PointScanWithIndex), the table side with scan-path queries (P OR P)",
@@ -193,6 +214,9 @@ func init() {
 						Fresh: func() core.Instance { return NewWorld(c07Cfg(p)) }, MaxDepth: p.Depth, SplitDepth: 1})
 				}
 			}
+			pc := c07Params{Idx: "hash", Seed: "colliding", MemKB: 128, Depth: depth + 1, Rest: rest}
+			core.BFS(c, core.SeqConfig{Name: "c07/hash/colliding", Params: pc,
+				Fresh: func() core.Instance { return NewWorld(c07Cfg(pc)) }, MaxDepth: pc.Depth, SplitDepth: 1})
 		},
 		Replay: func(raw json.RawMessage) (string, bool) {
 			var rp struct {
